@@ -1019,9 +1019,23 @@ def _(ctx):
     cell = ctx.args[0]
     s = _stream_arg(ctx, cell)
     st0 = ctx.state
+    cn = _concrete_len(stream_len(it, st0, s))
+    if cn is not None and cn <= 16:
+        # a statically known, finite element set: the conjunction of the predicate on each element
+        acc = TRUE
+        for i in range(cn):
+            r = it.call_closure(ctx, ctx.args[1], [stream_elem(ctx, s, iconst(i))])
+            if not isinstance(r, tuple):
+                raise Unsupported('all() predicate is not a boolean term')
+            acc = mk_and(acc, r)
+        return acc
     ivar, r, sub = _closure_on_elem(ctx, s, ctx.args[1])
     ctx.state = State(sub.state.store, st0.guard, st0.facts)
-    t = ('all', it.abstract(st0, s), ivar, r)
+    # the quantified domain is the underlying element sequence: by-value adaptors (cloned/copied) do not change it
+    dom = s
+    while isinstance(dom, Stream) and dom.kind == 'cloned':
+        dom = dom.parts[0]
+    t = ('all', it.abstract(st0, dom), ivar, r)
     it.events.append({'kind': 'all', 'fn': ctx.frame.f['path'] if ctx.frame else None, 'line': ctx.line,
                       'stream': s, 'ivar': ivar, 'pred': r, 'term': t})
     return t
@@ -1034,7 +1048,11 @@ def _(ctx):
     st0 = ctx.state
     ivar, r, sub = _closure_on_elem(ctx, s, ctx.args[1])
     ctx.state = State(sub.state.store, st0.guard, st0.facts)
-    return ('any', it.abstract(st0, s), ivar, r)
+    # ∃ is written ¬∀¬ so that `any(|x| !p(x))` and `!all(p)` are the same term
+    dom = s
+    while isinstance(dom, Stream) and dom.kind == 'cloned':
+        dom = dom.parts[0]
+    return mk_not(('all', it.abstract(st0, dom), ivar, mk_not(r)))
 
 
 @model('std::iter::Iterator::fold')
@@ -1452,3 +1470,83 @@ def _(ctx):
                       'line': ctx.line, 'stream': s, 'base': s, 'rev': True, 'ivar': ivar, 'pred': r,
                       'idx': idx, 'found': found})
     return opt(found, idx)
+
+
+def _map_variant(ctx, val, path, variant, closure):
+    """apply a closure to the payload of one variant of an Option/Result value"""
+    it = ctx.interp
+    if not isinstance(val, Enum) or val.path != path:
+        raise Unsupported('expected %s, got %s' % (path, type(val).__name__))
+    alts = []
+    for g, var, f in val.alts:
+        if var == variant and f:
+            st0 = ctx.state
+            sub = CallCtx(it, ctx.frame, st0.with_fact(g), ctx.term, [], None, None)
+            r = it.call_closure(sub, closure, [f[0]])
+            ctx.state = State(sub.state.store, st0.guard, st0.facts)
+            alts.append((g, var, (r,)))
+        else:
+            alts.append((g, var, f))
+    return Enum(path, tuple(alts))
+
+
+@model('<std::result::Result<T, E>>::map')
+def _(ctx):
+    return _map_variant(ctx, ctx.args[0], RESULT, 0, ctx.args[1])
+
+
+@model('<std::result::Result<T, E>>::map_err')
+def _(ctx):
+    return _map_variant(ctx, ctx.args[0], RESULT, 1, ctx.args[1])
+
+
+@model('<std::result::Result<T, E>>::ok')
+def _(ctx):
+    r = ctx.args[0]
+    if not isinstance(r, Enum) or r.path != RESULT:
+        raise Unsupported('Result::ok on %s' % type(r).__name__)
+    alts = []
+    for g, var, f in r.alts:
+        alts.append((g, 1, f) if var == 0 else (g, 0, ()))
+    return Enum(OPTION, tuple(alts))
+
+
+@model('<std::result::Result<T, E>>::unwrap', '<std::result::Result<T, E>>::expect')
+def _(ctx):
+    r = ctx.args[0]
+    if not isinstance(r, Enum) or r.path != RESULT:
+        raise Unsupported('Result::unwrap on %s' % type(r).__name__)
+    g = FALSE
+    payload = None
+    for gg, var, f in r.alts:
+        if var == 0:
+            g = mk_or(g, gg) if g != FALSE else gg
+            payload = f[0] if payload is None else ctx.interp.select(gg, f[0], payload)
+    require(ctx, 'unwrap', g, {'what': 'Result::unwrap'})
+    return payload
+
+
+@model('<std::option::Option<T>>::ok_or')
+def _(ctx):
+    g, p = _opt_parts(ctx, ctx.args[0])
+    alts = []
+    if p is not None:
+        alts.append((g, 0, (p,)))
+    alts.append((mk_not(g), 1, (ctx.args[1],)))
+    return Enum(RESULT, tuple(alts))
+
+
+@model('<std::option::Option<T>>::and_then')
+def _(ctx):
+    it = ctx.interp
+    g, p = _opt_parts(ctx, ctx.args[0])
+    if p is None or g == FALSE:
+        return none()
+    st0 = ctx.state
+    sub = CallCtx(it, ctx.frame, st0.with_fact(g), ctx.term, [], None, None)
+    r = it.call_closure(sub, ctx.args[1], [p])
+    ctx.state = State(sub.state.store, st0.guard, st0.facts)
+    g2, p2 = _opt_parts(ctx, r)
+    if p2 is None:
+        return none()
+    return opt(mk_and(g, g2), p2)
